@@ -18,6 +18,7 @@ import (
 	_ "verifharness/props/c15"
 	_ "verifharness/props/c16"
 	_ "verifharness/props/c17"
+	_ "verifharness/props/c18"
 	_ "verifharness/props/c19"
 	_ "verifharness/props/c20"
 )
